@@ -42,6 +42,17 @@ func (n *c18Recovering) Post(ctx context.Context, s *SharedStore, p, e any) (Act
 	return n.act, nil
 }
 
+// a node whose exec payload is itself of type Action
+type c18ActionPayload struct {
+	*BaseNode
+	act, payload Action
+}
+
+func (n *c18ActionPayload) Exec(ctx context.Context, p any) (any, error) { return n.payload, nil }
+func (n *c18ActionPayload) Post(ctx context.Context, s *SharedStore, p, e any) (Action, error) {
+	return n.act, nil
+}
+
 func (n *c18Struct) Post(ctx context.Context, s *SharedStore, p, e any) (Action, error) {
 	return n.act, nil
 }
@@ -66,8 +77,19 @@ func c18Batch(n, c int, stop bool, act Action) *BatchNodeBuilder {
 
 // c18Node builds the node kind under test (forks on the kind; the action stays symbolic)
 func c18Node(act Action) Node {
-	kinds := 12
+	kinds := 14
 	switch vChoice("kind", kinds) {
+	case 12:
+		// payloads that happen to be of the library's own Action type (any string, also empty) are
+		// payloads: only post decides the action
+		vCover("kind-func-exec-returns-an-action-value")
+		ea := vNondet[Action]("execPayloadAction")
+		return NewNode().
+			WithExecFuncAny(func(ctx context.Context, p any) (any, error) { return ea, nil }).
+			WithPostFuncAny(func(ctx context.Context, s *SharedStore, p, e any) (Action, error) { return act, nil })
+	case 13:
+		vCover("kind-struct-exec-returns-an-action-value")
+		return &c18ActionPayload{BaseNode: NewBaseNode(), act: act, payload: vNondet[Action]("execPayloadAction")}
 	case 10:
 		vCover("kind-struct-budget<=0")
 		b := vNondet[int]("budget")
